@@ -41,7 +41,7 @@ let df_gen (spec : string) : n list option =
 let df_strv spec = match df_gen spec with None -> SNull | Some l -> SBytes l
 let df_pbytes (l : n list) : string = Printf.sprintf "%d.%Lx" (List.length l) (df_fnv64 l)
 let df_pstrv = function SNull -> "~" | SBytes l -> df_pbytes l
-let df_rem = function DfIn r -> string_of_int (List.length r) | DfOver -> "-1"
+let df_rem (r : n list) = string_of_int (List.length r)
 
 let df_line_S toks =
   match toks with
@@ -50,10 +50,9 @@ let df_line_S toks =
     let rest = (match df_gen sb with None -> [] | Some l -> l) in
     let bytes = List.rev_append (List.rev (df_enc_str s)) rest in
     let w = "W " ^ df_pbytes bytes in
-    (match df_rd_str N0 (DfIn bytes) with
+    (match df_rd_str bytes with
      | DfOk (v, c) -> Printf.sprintf "%s R 0 %s %s" w (df_pbytes v) (df_rem c)
-     | DfErr rc -> Printf.sprintf "%s R %s ~ -" w (df_dec rc)
-     | DfOob -> w ^ " R OOB")
+     | DfErr rc -> Printf.sprintf "%s R %s ~ -" w (df_dec rc))
   | _ -> "?"
 
 let df_line_D toks =
@@ -61,8 +60,8 @@ let df_line_D toks =
       | [j; h; o] -> j, (if h = "-" then "" else h), o
       | [j; o] -> j, "", o
       | _ -> "0", "", "") in
-  let j = n_of_hex j in
-  let cur = ref (DfIn (bytes_of_hexstr hex)) in
+  ignore j;    (* the byte stored after the payload: the model has no use for it (the C must not either) *)
+  let cur = ref (bytes_of_hexstr hex) in
   let out = ref [] in
   let stop = ref false in
   List.iter (fun op ->
@@ -70,18 +69,13 @@ let df_line_D toks =
         let fin v c = out := (Printf.sprintf "0:%s:%s" v (df_rem c)) :: !out; cur := c in
         let err rc = out := df_dec rc :: !out; stop := true in
         match op.[0] with
-        | 's' ->
-          if !cur = DfOver then (out := "OVER" :: !out; stop := true)
-          else (match df_rd_str j !cur with
-              | DfOk (v, c) -> fin (df_pbytes v) c
-              | DfErr rc -> err rc
-              | DfOob -> out := "OVER" :: !out; stop := true)
-        | '1' -> (match df_rd_u8 !cur with DfOk (v, c) -> fin (df_dec v) c | DfErr rc -> err rc | DfOob -> stop := true)
-        | '2' -> (match df_rd_u16 !cur with DfOk (v, c) -> fin (df_dec v) c | DfErr rc -> err rc | DfOob -> stop := true)
-        | '4' -> (match df_rd_u32 !cur with DfOk (v, c) -> fin (df_dec v) c | DfErr rc -> err rc | DfOob -> stop := true)
+        | 's' -> (match df_rd_str !cur with DfOk (v, c) -> fin (df_pbytes v) c | DfErr rc -> err rc)
+        | '1' -> (match df_rd_u8 !cur with DfOk (v, c) -> fin (df_dec v) c | DfErr rc -> err rc)
+        | '2' -> (match df_rd_u16 !cur with DfOk (v, c) -> fin (df_dec v) c | DfErr rc -> err rc)
+        | '4' -> (match df_rd_u32 !cur with DfOk (v, c) -> fin (df_dec v) c | DfErr rc -> err rc)
         | 'k' ->
           let k = int_of_string (String.sub op 1 (String.length op - 1)) in
-          (match df_rd_skip (nat_of_int k) !cur with DfOk c -> fin (string_of_int k) c | DfErr rc -> err rc | DfOob -> stop := true)
+          (match df_rd_skip (nat_of_int k) !cur with DfOk c -> fin (string_of_int k) c | DfErr rc -> err rc)
         | _ -> out := "?" :: !out
       end) (String.split_on_char ',' ops);
   String.concat " " (List.rev !out)
@@ -130,9 +124,8 @@ let df_line_P (body : string) : string =
         | DfLSig (m, pl) -> Printf.sprintf " 2:%s:%s" (df_dec m) (df_pbytes pl)
         | DfLUd (m, pl) -> Printf.sprintf " 64:%s:%s" (df_dec m) (df_pbytes pl)
         | DfLTrk (tag, m) -> Printf.sprintf " %s:%s" (df_dec tag) (df_dec m))) !w.dfw_log;
-    (match df_scan N0 !w.dfw_log with
+    (match df_scan !w.dfw_log with
      | DfErr rc -> Buffer.add_string b (" | open " ^ df_dec rc)
-     | DfOob -> Buffer.add_string b " | open OOB"
      | DfOk r ->
        Buffer.add_string b " | open 0 | src";
        List.iter (fun s -> Buffer.add_string b (Printf.sprintf " %s,%s,%s,%s,%s,%s" (df_dec s.so_id) (df_pstrv s.so_name)
@@ -147,8 +140,7 @@ let df_line_P (body : string) : string =
        Buffer.add_string b " | q";
        List.iter (fun id -> Buffer.add_string b (match df_rd_signal r id with
            | DfOk d -> Printf.sprintf " %s:0:%s,%s,%s" (df_dec id) (df_dec d.sg_dtype) (df_dec d.sg_spd) (df_pstrv d.sg_name)
-           | DfErr rc -> Printf.sprintf " %s:%s" (df_dec id) (df_dec rc)
-           | DfOob -> " OOB")) (List.rev !qs);
+           | DfErr rc -> Printf.sprintf " %s:%s" (df_dec id) (df_dec rc))) (List.rev !qs);
        Buffer.add_string b " | ud";
        let (items, rc) = df_rd_user_data r in
        List.iter (fun u -> Buffer.add_string b (Printf.sprintf " %s,%s,%s" (df_dec u.ud_meta) (df_dec u.ud_stype) (df_pbytes u.ud_data))) items;
